@@ -47,7 +47,8 @@ def handle (op : String) (j : Json) : Option Json :=
     match getHaps? j "ph0", getHaps? j "ph1" with
     | some ph0, some ph1 =>
       let fixA := flag j "fixA"
-      match compareBlock fixA ph0 ph1 with
+      let fixB := flag j "fixB"
+      match compareBlock fixA fixB ph0 ph1 with
       | none => some (Json.str "error")
       | some e =>
         let p := ph0.length
@@ -55,7 +56,7 @@ def handle (op : String) (j : Json) : Option Json :=
         if p = 2 then some (errJson e) else
           let mp := matchingPos ph0 ph1 n
           let sw := polyCompare fixA p 1 (2 * n * p + 1) (polyCols (ph0.map (restrictTo · mp)) (ph1.map (restrictTo · mp)) mp.length)
-          let sf := polyCompare fixA p 1 1 (polyCols ph0 ph1 n)
+          let sf := polySwitchFlips fixA fixB ph0 ph1 p n
           some ((errJson e).mergeObj (Json.mkObj [("swAdm", ofPairs sw.admissible), ("sfAdm", ofPairs sf.admissible)]))
     | _, _ => some badInput
   else if op == "c11.blockspec" then
@@ -97,7 +98,7 @@ def handle (op : String) (j : Json) : Option Json :=
   else if op == "c11.pair" then
     match getNat? j "ploidy", (getObj? j "t0").bind parseTable, (getObj? j "t1").bind parseTable with
     | some p, some t0, some t1 =>
-      match comparePair (flag j "fixA") (flag j "fix3") p t0 t1 with
+      match comparePair (flag j "fixA") (flag j "fixB") (flag j "fix3") p t0 t1 with
       | none => some (Json.str "error")
       | some r =>
         some (Json.mkObj [("intersection_blocks", ofNat r.intersectionBlocks), ("covered_variants", ofNat r.coveredVariants),
@@ -109,7 +110,7 @@ def handle (op : String) (j : Json) : Option Json :=
   else if op == "c11.multiway" then
     match (getList? j "tables").bind (·.mapM parseTable) with
     | some tables =>
-      match compareMultiway tables with
+      match compareMultiway (flag j "fixC") tables with
       | none => some (Json.str "error")
       | some (total, hist) =>
         some (Json.mkObj [("total", ofNat total),
